@@ -14,7 +14,11 @@ Tie:
     log start / beyond log end × earliest | latest | none × read_uncommitted | read_committed ×
     group / group-less, ListOffsets pinned to v0..v3, failing lookups (retriable codes, dropped
     connections, lost replies), and a seek landing at every simulator event index between
-    assignment and completion of the reset.
+    assignment and completion of the reset; plus staggered lookups (cons_sim.c13lag_plans): two
+    partitions with committed offsets led by different brokers, one leader unknown at assignment
+    and appearing while the (delayed) OffsetFetch of the other partition is in flight — on a grid
+    across the flight and at 1-ms steps around the arrival of its reply; both must get their
+    committed offsets within 15 virtual seconds.
 Search: the property on observations (`c13 holds`: Lean `holdsC13`) for every trace, plus an
 independent table of the expected start for the runs without a seek.
 """
@@ -273,6 +277,45 @@ def run(ctx):
         sim_hist["with_faults"] += 1 if plan.get("faults") else 0
         ctx.count(("sim", repr(sorted((k, repr(v)) for k, v in plan.items()))), nontrivial=True)
         ctx.coverage["traces_validated_against_impl"] += 1
+    # ---- staggered committed-offset lookups (two partitions, one leader known late, OffsetFetch delayed)
+    if ctx.replay_cases is not None:
+        lag_plans = [c for c in ctx.replay_cases if c.get("kind") == "c13lag"]
+    else:
+        lag_plans = cs.c13lag_plans(ctx.thorough)
+    lag_bad = 0
+    for plan in lag_plans:
+        out = cs.c13lag_trace(env, plan)
+        pol = cs.POLICY[plan["policy"]]
+        for key, evs in out["events"].items():
+            lines.append(cc.acc_line(guarded, pol, evs)); where.append(("acc", len(meta)))
+            meta.append({"case": plan, "obs": [], "out": out})
+        for part, want in cs.LAG_COMMITTED.items():
+            obs = out["obs13"].get(part, [])
+            lines.append(obs13_line(want, pol, obs)); where.append(("holds", len(meta)))
+            meta.append({"case": plan, "obs": obs, "out": out})
+        sim_hist["staggered_lookup_runs"] = sim_hist.get("staggered_lookup_runs", 0) + 1
+        ctx.count(("lag", repr(sorted((k, repr(v)) for k, v in plan.items()))), nontrivial=True)
+        ctx.coverage["traces_validated_against_impl"] += 1
+        if out["outcome"] != "ok":
+            lag_bad += 1
+            ctx.violation("c13:hang", f"{out.get('where', '')[:300]}; case {plan}", {"cases": [plan]})
+            continue
+        missing = [p for p, v in out["positions"].items() if v is None]
+        wrong = {p: v for p, v in out["positions"].items() if v is not None and v != cs.LAG_COMMITTED[p]}
+        if missing:
+            lag_bad += 1
+            ctx.violation(
+                "c13:never-positioned",
+                f"partition(s) {missing} have a committed offset ({[cs.LAG_COMMITTED[p] for p in missing]}) but got no position within "
+                f"{plan['bound']} virtual seconds after assignment (leader of partition {plan['late']} known at "
+                f"+{out.get('leader_known_at')} s, first OffsetFetch reply delayed by {plan['delay']} s); positions {out['positions']}; "
+                f"observations {out['obs13']}",
+                {"cases": [plan], "positions": out["positions"], "observations": out["obs13"]})
+        if wrong:
+            lag_bad += 1
+            ctx.violation("c13:wrong-start", f"consumption must start at the committed offsets {cs.LAG_COMMITTED}; positions "
+                          f"{out['positions']}; case {plan}", {"cases": [plan], "observations": out["obs13"]})
+    sim_hist["staggered_lookup_failures"] = lag_bad
     ctx.coverage["sim_c13"] = sim_hist
     ctx.log(f"simulator runs done: {sim_hist}")
     res = ctx.driver("akdriver", lines)
@@ -281,7 +324,9 @@ def run(ctx):
         "restart, answer] × policy with 1–2 of {seek, seek_to_beginning, seek_to_end, OFFSET_OUT_OF_RANGE} inserted at "
         "every position; sim: 30 configurations (committed absent/inside/below/beyond × policy × isolation × group / "
         "group-less) with ListOffsets pinned to one version, lookup faults, and a seek(22) (for a third of the "
-        "configurations also seek_to_beginning / seek_to_end) at every simulator event index of the window; every run "
+        "configurations also seek_to_beginning / seek_to_end) at every simulator event index of the window; staggered "
+        "lookups: two partitions with committed offsets 5 / 7 led by different brokers, one leader unknown at assignment "
+        "and appearing on a grid across (and at 1-ms steps around the end of) the flight of a delayed OffsetFetch; every run "
         "counts as non-trivial; distinct by canonical plan text")
     for m in ((meta[0], meta[len(meta) // 2], meta[-1]) if meta else ()):
         ctx.sample({"case": {k: v for k, v in m["case"].items() if k not in ("ops",)} if m["case"].get("kind") == "c13" else m["case"],
@@ -325,7 +370,7 @@ def run(ctx):
             bad = True
             ctx.violation("c13:error-not-raised", f"error {exp_err} must reach the caller; observed {m['obs']}; case {plan}",
                           {"cases": [plan], "observations": m["obs"]})
-    ctx.coverage["all_clean"] = bool(proved and not bad)
+    ctx.coverage["all_clean"] = bool(proved and not bad and not lag_bad)
 
 
 def last_tick_of_window(out):
